@@ -8,6 +8,7 @@ for d in /verif/seeded/*/; do
   case "$id" in "$want"*) ;; *) continue;; esac
   [ -f "$d/meta.json" ] || continue
   prop=$(python3 -c "import json,sys; print(json.load(open('$d/meta.json'))['property'])")
+  if grep -q '"retired"' "$d/meta.json"; then echo "$id $prop RETIRED"; continue; fi
   out=$(tools/try_seed.sh "$d" "$tier" "$prop" 2>&1)
   if echo "$out" | grep -q "PATCH-DOES-NOT-APPLY"; then r="DOES-NOT-APPLY";
   elif echo "$out" | grep -q "^VIOLATION property=$prop"; then r="CAUGHT";
